@@ -88,7 +88,10 @@ def make_file(rng, kind_, path):
         try:
             with warnings.catch_warnings():
                 warnings.simplefilter("ignore")
+                stated = gen.normal_form(spec)
                 spec = model.model_of(gen.build_doc(spec))   # the normal form the API stores
+                from checks.c01_xml import restate_dtypes
+                restate_dtypes(spec, stated)                 # ... with the dtypes the specification names
         except Exception:
             pass
         from checks.c01_xml import foreign_safe
